@@ -512,6 +512,7 @@ func ownLists(depth int) [][]kv {
 		nil,
 		{{K: "a", ID: b + 1}},
 		{{K: "a", ID: b + 1}, {K: "b", ID: b + 2}},
+		{{K: "b", ID: b + 1}, {K: "a", ID: b + 2}, {K: "a", ID: b + 3}},
 		{{K: "a", ID: b + 4}, {K: "b", ID: b + 1}, {K: "a", ID: b + 2}, {K: "a", ID: b + 3}},
 		{{K: "g", IsG: true, G: []kv{{K: "y", ID: b + 1}, {K: "x", ID: b + 2}, {K: "x", ID: b + 3}}}},
 	}
